@@ -80,6 +80,10 @@ class _Rec(HttpProxyBasePlugin):
         return b[0]
 
     def resolve_dns(self, host: str, port: int) -> Tuple[Optional[str], Optional[Any]]:
+        b = TABLE.get((self.IDX, 'resolve_dns'))
+        if b is not None and b[0] == 'answer':
+            LOG.append((self.IDX, 'resolve_dns', (host, port), 'answer', RESOLVE_IPS[self.IDX]))
+            return RESOLVE_IPS[self.IDX], None
         LOG.append((self.IDX, 'resolve_dns', (host, port), 'pass', None))
         return None, None
 
@@ -168,6 +172,66 @@ def flags_for(order: List[int], pp: bool = False) -> Any:
 
 
 AUTH_NAME = b'proxy.http.proxy.auth.AuthPlugin'
+RESOLVE_IPS: Dict[int, str] = {}
+
+
+def run_resolve_chain(case: Dict[str, Any]) -> Dict[str, Any]:
+    """resolve_dns is a chain hook like the others: plugins are asked in configured order and the first one that names an address
+    decides where the upstream connection goes - whatever plugins configured after it would have said."""
+    rng = random.Random('c09r:%s:%s' % (case['seed'], case['i']))
+    order: List[int] = case['order']
+    answering: List[int] = case['answering']
+    TABLE.clear()
+    for idx in answering:
+        TABLE[(idx, 'resolve_dns')] = ('answer', 0)
+    del LOG[:]
+    shim.S.reset()
+    flags = flags_for(order)
+    rig = StepRig(flags, case.get('mode', 'local'))
+    viol: List[Dict[str, Any]] = []
+    obs: Dict[str, int] = {'resolve_chain_cases': 1}
+    feat = 'resolve_dns|%d-of-%d-answer' % (len(answering), len(order))
+    try:
+        named = rig.add_origin('127.0.%d.%d' % (rng.randint(0, 250), rng.randint(2, 250)))
+        origins = {'named': named}
+        RESOLVE_IPS.clear()
+        for idx in answering:
+            ip = '127.9.%d.%d' % (rng.randint(0, 250), 10 + idx)
+            RESOLVE_IPS[idx] = ip
+            origins['P%d' % idx] = rig.add_origin(ip, named.port)      # same port, the address the plugin names
+        alog = audit.start()
+        c = rig.add_client('unix')
+        connect = case.get('method') == 'CONNECT'
+        hp = named.hostport
+        c.send((b'CONNECT %s HTTP/1.1\r\nHost: %s\r\n\r\n' % (hp, hp)) if connect else (b'GET http://%s/r HTTP/1.1\r\nHost: %s\r\n\r\n' % (hp, hp)))
+        got: Dict[str, Any] = {}
+
+        def reached() -> bool:
+            for name, o in origins.items():
+                p = o.accept()
+                if p is not None:
+                    got[name] = p
+            return bool(got) or c.ended
+        rig.until(reached, [c], idle_timeout=0.4)
+        rig.settle([c], quiet=4)
+        reached()
+        audit.stop()
+        first = next((idx for idx in order if idx in answering), None)
+        want = 'named' if first is None else 'P%d' % first
+        if sorted(got) != [want]:
+            viol.append({'key': feat + '|upstream-connection-not-where-the-first-answering-plugin-said',
+                         'detail': {'order': order, 'answering': answering, 'reached': sorted(got), 'want': want,
+                                    'connects': [str(a) for (ev, a) in alog if ev == 'socket.connect'][:4],
+                                    'log': [e for e in LOG if e[1] == 'resolve_dns']}})
+        else:
+            obs['resolve_chain_checked'] = 1
+    except LoopDied as e:
+        viol.append({'key': feat + '|loop-died:%s' % e.where(), 'detail': {'tb': e.tb[-1000:]}})
+    finally:
+        audit.stop()
+        rig.close()
+        TABLE.clear()
+    return {'viol': viol, 'nontrivial': True, 'sig': 'resolve/%s/%s/%s' % (order, answering, case.get('method')), 'obs': obs, 'sample': {'case': case}}
 
 
 def run_auth_order(case: Dict[str, Any]) -> Dict[str, Any]:
@@ -243,6 +307,8 @@ def run_auth_order(case: Dict[str, Any]) -> Dict[str, Any]:
 def run_case(case: Dict[str, Any]) -> Dict[str, Any]:
     if case.get('kind') == 'auth-order':
         return run_auth_order(case)
+    if case.get('kind') == 'resolve-chain':
+        return run_resolve_chain(case)
     rng = random.Random('c09:%s:%s' % (case['seed'], case['i']))
     order: List[int] = case['order']
     table = {(int(k.split(':')[0]), k.split(':')[1]): (v[0], v[1]) for k, v in case['table'].items()}
@@ -592,6 +658,11 @@ def cases(tier: str, seed: int):
                 i += 1
                 yield {'seed': seed, 'i': i, 'kind': 'auth-order', 'order': order, 'auth_at': pos, 'as_name': as_name,
                        'mode': 'local' if i % 3 else 'remote'}
+    for order in orders:
+        subsets = [[]] + [[x] for x in order] + ([list(order)] if len(order) > 1 else []) + ([[order[0], order[-1]]] if len(order) > 2 else [])
+        for ans in subsets:
+            i += 1
+            yield {'seed': seed, 'i': i, 'kind': 'resolve-chain', 'order': order, 'answering': ans, 'method': ['GET', 'CONNECT'][i % 2], 'mode': 'local' if i % 3 else 'remote'}
     # follow-ups arriving while the first answer is still queued for a client that does not read
     for order in orders:
         for (hook, beh, nth) in [('handle_client_request', 'reject', 2), ('handle_client_request', 'modify', 2), ('handle_client_request', 'reject', 3)]:
@@ -645,7 +716,7 @@ def floors(tier: str) -> Dict[str, int]:
     return {'chain_rounds_checked': 2000, 'chunk_rounds_checked': 500, 'lifecycle_checked': 800, 'rejections_checked': 100,
             'forwarded_requests_checked': 500, 'followups_checked': 300, 'distinct:hook_behaviour_position': 30,
             'ending:client-reset-mid-request': 10, 'ending:origin-reset-mid-response': 10, 'client_stream_vs_chain_checked': 100,
-            'auth_order_checked': 60, 'proxy_protocol:UNKNOWN': 20, 'proxy_protocol:TCP4': 20, 'followups_sent_behind_pending_output': 15}
+            'auth_order_checked': 60, 'proxy_protocol:UNKNOWN': 20, 'proxy_protocol:TCP4': 20, 'followups_sent_behind_pending_output': 15, 'resolve_chain_checked': 30}
 
 
 if __name__ == '__main__':
